@@ -29,6 +29,16 @@ func verifEvent(ev int, a, b uint64) {
 	}
 }
 
+// VerifChunkHook, when non-nil, sees every chunk ParseNDStream cuts from its reader, in order, before the
+// chunk is handed to a parser.
+var VerifChunkHook func(b []byte)
+
+func verifChunk(b []byte) {
+	if h := VerifChunkHook; h != nil {
+		h(b)
+	}
+}
+
 // VerifParseNumber exposes parseNumber.
 func VerifParseNumber(buf []byte) (id, val uint64) { return parseNumber(buf) }
 
